@@ -148,7 +148,10 @@ func (p *scriptProc) ProcessPacketData(data []byte, _ *gopacket.CaptureInfo) err
 	pos := int(data[0])<<8 | int(data[1])
 	p.processed = append(p.processed, pos)
 	if data[2] == 'P' {
-		err := fmt.Errorf("process error at %d", pos)
+		// a real processor fails the same way on the same kind of frame: every error carries the same text (and is
+		// its own value — the position is recovered through its identity), so a receiver that tells errors apart by
+		// their text, or remembers the last one, reports fewer than it should
+		err := fmt.Errorf("process error: %s", "layer decode failed")
 		p.errPos[err] = pos
 		return err
 	}
